@@ -165,6 +165,10 @@ def conclude(mod, tier, seed, results, t0, replay=None, tmp=None, extra_cov=None
     # violations vs known findings -----------------------------------------
     new, seen_known = [], collections.OrderedDict()
     os.makedirs(os.path.join(HERE, "replays"), exist_ok=True)
+    if not replay:
+        import glob
+        for old in glob.glob(os.path.join(HERE, "replays", "%s-%s-s%s-*.json" % (pid, tier, seed))):
+            os.remove(old)
     for v in violations:
         if v["tag"] in known_tags:
             seen_known.setdefault(v["tag"], v)
